@@ -622,6 +622,14 @@ def filter_shapes(out, prop, tier, seed):
         sh = shapes[m["id"]]
         bad = sorted(k for k, v in m["cls"].items() if v != "ok")
         sig = "FilterShapes:%s%s" % (",".join("%s=%s" % (k, m["cls"][k]) for k in bad), ":nanpanic" if m["nanpanic"] else "")
+        if not bad:
+            # every logged value was finite up to the step at which a report (observe) hit a non-finite number: name the history
+            item = lambda x: "/".join(str(x[k]) for k in ("off", "delay", "gap", "disp") if k in x)
+            sig = "FilterShapes:non-finite estimate reported:%sx%d;%s" % (item(sh["base"]), sh.get("reps", 1), ",".join(item(t) for t in sh.get("tail", [])))
+            offs = [sh["base"]["off"]] + [t["off"] for t in sh.get("tail", [])]
+            if sh["base"]["delay"] == "zero" and any(o in ("maxpos", "maxneg") for o in offs):
+                # one family (finding F-18): zero-delay start-up samples and offsets of magnitude 2^31 s
+                sig = "FilterShapes:non-finite estimate reported:zero-delay start-up samples and offsets of magnitude 2^31 s"
         out.violation(sig, {"how": "replay", "shape": sh, "classes": m["cls"], "nanpanic": m["nanpanic"],
                             "panics": results[m["id"]]["panics"], "differing": bad})
     other = [(r["id"], r["panics"]) for r in results if r["panics"] and not r["nanpanic"]]
